@@ -394,7 +394,7 @@ let run_kmergechk args = match args with
     L [A "verdict"; sx_bool (merge_oracle (rev = "1") (chunks_of chunks) (List.map mout_of (tagged "outs" outs)))]
   | _ -> raise (Bad "kmergechk args")
 let run_xsort args = match args with
-  | [cs; _threads; _comp; A rev; items] -> with_panic (fun emit ->
+  | [cs; _threads; _comp; A rev; items] | [cs; _threads; _comp; A rev; items; _] -> with_panic (fun emit ->
       let input = List.map (fun x -> match lst x with k :: id :: _ -> (num k, num id) | _ -> raise (Bad "xsort item")) (tagged "items" items) in
       (* the default chunk size (50,000,000) exceeds every generated input: same behaviour as len + 1 *)
       let cs = (match cs with A "default" -> nat_of_int (List.length input + 1) | x -> nat_ x) in
